@@ -568,19 +568,54 @@ def r6(cx):
     # The clause is decided per operator, on the CFG restricted to the edges that operator takes at every test of a
     # BinaryOperator (match arm patterns of eval, `match operator {..}` / `operator == ..` inside a helper): the shape of the
     # dispatch (one arm per operator, a merged arm with a materialised `decided` flag, an extracted helper) is free.
-    op_switches = {}
-    for u in sorted(body.live_blocks()):
-        ec = Q.edge_condition(F, body, du, u)
-        if ec and ec[0]['k'] == 'discr' and (ec[0].get('ty') or '').rstrip('& ').endswith('ast::BinaryOperator'):
-            op_switches[u] = ec[1]
+    op_switches, op_tests = _operator_tests(F, body, du)
     cx.require(op_switches, 'eval no longer dispatches on the BinaryOperator')
+
+    def is_op_test(t):
+        return len(t['a']) == 2 and all(x.lstrip('&').strip().endswith('ast::BinaryOperator') for x in t.get('at', ['?']))
+
+    def op_truth(org, op, live, depth=6):
+        """Truth, for the operator `op`, of a bool that is a test of the operator against a constant variant
+        (`*operator == BinaryOperator::LogicalOr`, possibly negated / copied through bool locals: `let is_or = ..`);
+        None if the value is not such a test."""
+        flip = False
+        while depth > 0:
+            depth -= 1
+            if org.get('k') == 'unop' and org['rv'].get('op') == 'Not':
+                org, flip = du.origin(org['rv']['o']), not flip
+                continue
+            if org.get('k') == 'call':
+                t = org['t']
+                if not Q.callee_is(t, ne + eq) or not is_op_test(t):
+                    return None
+                consts = [c for c in (_binop_const_variant(du, a) for a in t['a']) if c is not None]
+                if len(consts) != 1:
+                    return None
+                return (((op == consts[0]) == bool(Q.callee_is(t, eq))) != flip)
+            if org.get('k') == 'place' and not org['pl'].get('p') and body.locals[org['pl']['l']]['ty'] == 'bool':
+                defs = [d for d in du.defs.get(org['pl']['l'], []) if d[0] in live]
+                if len(defs) != 1:
+                    return None
+                blk, idx, node = defs[0]
+                if idx == 't':
+                    org = {'k': 'call', 't': node, 'b': blk}
+                elif node['k'] == 'assign' and node['rv']['k'] == 'use' and ('cp' in node['rv']['o'] or 'mv' in node['rv']['o']):
+                    org = du.origin(node['rv']['o'])
+                elif node['k'] == 'assign' and node['rv']['k'] == 'unop' and node['rv'].get('op') == 'Not':
+                    org, flip = du.origin(node['rv']['o']), not flip
+                else:
+                    return None
+                continue
+            return None
+        return None
+
     switches = {}
     for u in sorted(body.live_blocks()):
         ec = Q.edge_condition(F, body, du, u)
         if ec is not None:
             switches[u] = ec
 
-    def lhs_is_zero_on(org, lab, live, depth=6):
+    def lhs_is_zero_on(org, lab, live, op, depth=6):
         """Truth of `lhs == 0` implied by a test (origin, label) of lhs against Value::Integer(0), possibly negated and/or
         materialised in bool locals (`let t = lhs != 0; let decided = match operator { Or => t, _ => !t }; if !decided`):
         a bool local is followed through its only definition that is live for the operator under analysis. None if the
@@ -591,9 +626,22 @@ def r6(cx):
             if not lab or lab[0] != 'bool':
                 return None
             if org['k'] == 'call':
-                if not Q.callee_is(org['t'], ne + eq):
+                if not Q.callee_is(org['t'], ne + eq) or is_op_test(org['t']):
                     return None
                 return (not lab[1]) if Q.callee_is(org['t'], ne) else lab[1]
+            if org['k'] == 'binop' and org['rv'].get('op') in ('Ne', 'Eq', 'BitXor'):
+                # `lhs_is_true != is_or` / `lhs_is_zero == is_or`: a comparison of two bools of which one is a test of the
+                # operator; for the operator under analysis that side is a known constant, and the comparison is a test of the
+                # other side
+                sides = [du.origin(org['rv']['a']), du.origin(org['rv']['b'])]
+                known = [op_truth(x, op, live) for x in sides]
+                if sum(1 for k in known if k is not None) != 1:
+                    return None
+                kt = known[0] if known[0] is not None else known[1]
+                other = sides[1] if known[0] is not None else sides[0]
+                same = lab[1] if org['rv']['op'] == 'Eq' else (not lab[1])
+                org, lab = other, ('bool', kt if same else (not kt))
+                continue
             if org['k'] != 'place' or org['pl'].get('p') or body.locals[org['pl']['l']]['ty'] != 'bool':
                 return None
             defs = [d for d in du.defs.get(org['pl']['l'], []) if d[0] in live]
@@ -615,7 +663,7 @@ def r6(cx):
 
     guarded = {}
     for op in ('LogicalOr', 'LogicalAnd'):
-        removed = {(u, tgt) for u, labels in op_switches.items() for tgt, labs in labels.items() if ('variant', op) not in labs}
+        removed = _edges_not_taken_by(op, op_switches, op_tests)
         live = body.reachable(0, removed_edges=removed)
         verdicts = []
         for b, t in by_arg['rhs_ast']:
@@ -629,7 +677,7 @@ def r6(cx):
                     if (u, tgt) in removed or b in body.reachable(0, removed_edges=removed | {(u, tgt)}):
                         continue
                     for lab in labs:
-                        z = lhs_is_zero_on(org, lab, live)
+                        z = lhs_is_zero_on(org, lab, live, op)
                         if z is not None:
                             zs.append(z)
             cx.site('eval: eval(rhs_ast) at %s is reached for %s with lhs %s' % (body.loc(t), op, {True: '== 0', False: '!= 0'}.get(zs[-1]) if zs else 'untested'))
@@ -1566,8 +1614,14 @@ def r17(cx):
                                is_op_ty(body.locals[Q.operand_local(o)].get('ty'))]
                         sites.append((blk, st, ops[0] if len(ops) == 1 else None))
             for blk, node, opnd in sites:
-                n += 1
                 cv = _binop_const_variant(du, opnd) if opnd is not None else None
+                # the floor counts operators per site, so that one arm per operator with a constant operator and one merged arm
+                # passing the run-time operator (`operator @ (LogicalOr | LogicalAnd) => .. binary_result(lhs, rhs, *operator, ..)`)
+                # weigh the same: a constant operator counts 1, a run-time operator min(2, operators that can arrive there)
+                if cv is not None:
+                    n += 1
+                else:
+                    n += min(2, sum(1 for v in variants if blk in body.reachable(0, removed_edges=_edges_not_taken_by(v, switches, tests))))
                 cand = sorted(vs & {cv}) if cv is not None else sorted(vs)
                 bad, wit = [], None
                 for v in cand:
@@ -1601,7 +1655,8 @@ def r17(cx):
                              '`$((1 = 2))` yields 2 and `$((3 += 4))` yields 7 instead of the error "assignment to a non-variable"'
                              % (', '.join(bad[:3]) + (' ...' if len(bad) > 3 else '')), loc=body.loc(node),
                              path=Q.render_path(body, wit) if wit else None)
-    cx.floor(n, 4, 'call sites of binary_result (two in apply_binary, the || and && arms of eval)')
+    cx.floor(n, 6, 'operators at call sites of binary_result (two sites with a run-time operator in apply_binary, counted twice each; '
+                   'the || and && arms of eval)')
 
 
 ENV_GET = re.compile(r' as yash_arith::env::Env>::get_variable$')
